@@ -12,7 +12,7 @@
 (* partial: outside the domain the properties quantify over the slot is     *)
 (* Unspec and only C01 (some slot, no panic) applies.                       *)
 (***************************************************************************)
-EXTENDS Env, Units, TLC
+EXTENDS Env, Registry, TLC
 
 ArithMeaning(toks) ==
   IF DateLike(toks) THEN Unspec
@@ -79,6 +79,8 @@ LineMeaning(ctx, line) ==
     [] line.form = "unit_lit"   -> [slot |-> UnitQ(line.x.q, line.x.u), env |-> ctx.env]
     [] line.form = "unit_conv"  -> [slot |-> ConvertUnit(line.x.q, line.x.u, line.target), env |-> ctx.env]
     [] line.form = "unit_arith" -> [slot |-> UnitArith(line.l, line.op, line.r), env |-> ctx.env]
+    [] line.form = "rule_line"  -> [slot |-> RuleLineMeaning(ctx.calc, ctx.lang, line), env |-> ctx.env]
+    [] line.form = "fam_conv"   -> [slot |-> FamConvMeaning(ctx.calc, line), env |-> ctx.env]
     [] line.form = "shape"   -> [slot |-> Unspec, env |-> ctx.env]
     [] OTHER                 -> [slot |-> Unspec, env |-> ctx.env]
 
@@ -126,6 +128,8 @@ SlotMatches(exp, obs) ==
   ELSE IF exp.k = "term" THEN obs.k = exp.kind /\ (exp.kind = "money" => obs.cur = exp.cur)   \* the driver evaluates the term
   ELSE IF exp.k = "uterm" THEN obs.k = "unit" /\ obs.u = exp.u      \* the driver evaluates the term
   ELSE IF exp.k = "notunits" THEN obs.k \in SlotKinds /\ (obs.k = "unit" => obs.u \notin exp.us)
+  ELSE IF exp.k = "baseline" THEN Has(obs, "same_as_base") /\ obs.same_as_base      \* the driver compares with the rule-free run
+  ELSE IF exp.k = "famq" THEN obs.k = "unit" /\ Has(obs, "q") /\ obs.q = exp.q /\ obs.group = exp.fam /\ obs.index = exp.idx
   ELSE IF exp.k = "ts" THEN obs.k = "num" /\ Has(obs, "ts") /\ obs.ts = <<exp.d, exp.s>> /\ (Has(obs, "pr") => obs.pr = <<exp.d, exp.s>>)
   ELSE Matches(exp, obs) /\ PrintMatches(exp, obs)
 SlotMatchesCtx(ctx, exp, obs) == SlotMatches(exp, obs) /\ PrintMatchesCtx(ctx, exp, obs)
